@@ -195,6 +195,8 @@ class Watch:
         for d in sn['servos']:
             d.pop('last')
             d.pop('alias')
+            d['times'] = [H.fbits(x) for x in d['times']]
+            d['tstart'] = None if d['tstart'] is None else H.fbits(d['tstart'])
             d['coords'] = [H.fbits(x) for x in d['coords']]
             d['cmd'] = [H.fbits(x) for x in d['cmd']]
             d['offs'] = [H.fbits(x) for x in d['offs']]
